@@ -177,7 +177,7 @@ impl Tokenizer
 						&self.config.detokenizer.escapes, &[34,0], "str");
 					code += &escaped;
 					addr = naddr;
-					if img[addr]==QUOTE {
+					if addr<img.len() && img[addr]==QUOTE {
 						code += "\"";
 						addr += 1;
 					}
